@@ -274,4 +274,13 @@ Definition csr_rowslice (A : csr) (r0 r1 : nat) (x : nat -> R) : nat -> R :=
 Definition csr_rowsubset (A : csr) (rows : list nat) (x : nat -> R) : nat -> R :=
   fun i => if i <? length rows then csr_row A (nth i rows 0) x else rO.
 
+(* solvers.py:39-42: (l_op * DiagonalOperator(1.0/diag) * r_op).dot(x) for a vector x, with
+   l_op = KroneckerOperator of the U_k, r_op = KroneckerOperator of the U_k.T;
+   dinv = 1.0/diag (diag: solvers.py:32-37) is passed in *)
+Definition fastdiag_apply (Us : list operand) (dinv : nat -> R) (x : arr) : arr :=
+  let r := kronecker_operator (map oT Us) x in
+  let N := prodl (map (fun o => mrows (omat o)) Us) in
+  let d := mkarr [N] (fun idx => diagonal_matvec dinv (fun j => aat r [j]) (hd 0 idx)) in
+  kronecker_operator Us d.
+
 End Model.
